@@ -1,8 +1,12 @@
 package props
 
 import (
+	"bufio"
+	"encoding/json"
+	"flag"
 	"fmt"
 	"math/bits"
+	"os"
 	"sort"
 	"strings"
 
@@ -177,4 +181,34 @@ func lib1(s string) string {
 		return s[:160] + "..."
 	}
 	return s
+}
+
+// Aux: `vh aux C01 -seed S -n N` dumps N generated pairs with the model's verdict as JSON lines, for the
+// python cross-check of the reference model (tools/crosscheck_model.py, thorough tier).
+func (p *c01) Aux(args []string) int {
+	fs := flag.NewFlagSet("aux", flag.ExitOnError)
+	seed := fs.Int64("seed", 1, "")
+	n := fs.Int("n", 20000, "")
+	_ = fs.Parse(args)
+	w := bufio.NewWriter(os.Stdout)
+	defer w.Flush()
+	for i := 0; i < *n; i++ {
+		r := lib.NewRand(*seed, "C01-crosscheck", i)
+		_, doc, instRaw := genPair(r, gen.SchemaOpts{MaxDepth: 4, Refs: true, FormatAnyType: false, SpecialNames: true})
+		st, it := gen.JSON(doc), gen.JSON(instRaw)
+		schema, err1 := model.Parse(st)
+		inst, err2 := model.Parse(it)
+		if err1 != nil || err2 != nil {
+			continue
+		}
+		mc := &model.Ctx{Root: schema, Formats: nil} // formats are not asserted by the python validator either
+		v := mc.Valid(schema, inst)
+		if mc.Unresolved {
+			continue
+		}
+		line, _ := json.Marshal(map[string]any{"schema": json.RawMessage(st), "instance": json.RawMessage(it), "model_valid": v})
+		w.Write(line)
+		w.WriteByte('\n')
+	}
+	return 0
 }
